@@ -394,7 +394,7 @@ def generate(outdir, seed, npairs):
         facts.append(("std::pair<const %s&, const %s&>" % (e, e), "std::pair<%s, %s>" % (e, e), "pair of const references ~ pair of values", True))
         facts.append(("std::pair<const %s&, const %s&>" % (e, e), "std::tuple<%s, %s>" % (e, e), "pair of const references ~ tuple of values", True))
     # hand-written types (engines/fung/pairs.h): a logical buffer whose array member is const (symmetry and the Protocol gate only), maps keyed by a value wrapper
-    for b in ["std::vector<int>", "std::array<int, 4>", "std::vector<std::string>"]:
+    for b in ["vf::facts::VecIntS", "vf::facts::ArrIntS", "vf::facts::VecStrS", "std::vector<int>"]:
         facts.append(("vf::facts::LBConstArr", b, "logical buffer with a const array member against a sequence (symmetry only)", False))
         facts.append(("vf::facts::LBConstStrArr", b, "logical buffer with a const array member against a sequence (symmetry only)", False))
     facts.append(("vf::facts::LBConstArr", "vf::facts::LBArr", "logical buffer with a const array member against the same without const (symmetry only)", False))
